@@ -191,6 +191,49 @@ def analyse(repo: Repo, tier: str = "quick") -> List[Rec]:
             elif key[0] == "cycle":
                 R("C05", "C05.R2", "bad", h, info["line"], f"redispatch-cycle kinds={'/'.join(key[1])}", f"direct op(...) call re-enters this handler with the same operand kinds {key[1]} -> {info['to']}: unbounded recursion", f"operand kinds {key[1]} (RecursionError)")
     recs.extend(_dispatch_rules(repo, hs))
+    recs.extend(_helper_predicates(repo, hs))
+    return recs
+
+
+SCALAR_FORMS = ("len({t}.shape) == 0", "{t}.ndim == 0", "{t}.dim() == 0", "{t}.shape == ()", "{t}.shape == torch.Size([])", "len({t}.size()) == 0")
+
+
+def _helper_predicates(repo: Repo, hs) -> List[Rec]:
+    """The guard helpers the rules above trust by name must mean what the rules assume (C05.R13)."""
+    recs = []
+    mods = {h.mi.name: h.mi for h in hs["qbytes"]}
+    for mi in mods.values():
+        fn = mi.defs.get("is_scalar")
+        if not isinstance(fn, ast.FunctionDef):
+            recs.append(Rec("C05", "C05.R13", "unknown", f"{mi.rel}:1", "is_scalar", "", "is_scalar helper not found"))
+            continue
+        t = positional_params(fn)[0]
+        ps = [p for p in paths_of(fn) if p.end[0] == "return"]
+        ok = False
+        txt = ""
+        if len(ps) == 1:
+            e = ps[0].end[1]
+            txt = U(e)
+            # Number or (plain tensor and 0-dim)
+            if isinstance(e, ast.BoolOp) and isinstance(e.op, ast.Or) and len(e.values) == 2:
+                a, b = e.values
+                num = U(a) in (f"isinstance({t}, numbers.Number)", f"isinstance({t}, (int, float))", f"isinstance({t}, Number)")
+                if isinstance(b, ast.BoolOp) and isinstance(b.op, ast.And) and len(b.values) == 2:
+                    plain = U(b.values[0]) in (f"type({t}) == torch.Tensor", f"type({t}) is torch.Tensor")
+                    zero = U(b.values[1]) in [f.format(t=t) for f in SCALAR_FORMS]
+                    ok = num and plain and zero
+        for pid, rule in (("C05", "C05.R13"), ("C06", "C06.R8")):
+            recs.append(Rec(pid, rule, "ok" if ok else "bad", f"{mi.rel}:{fn.lineno}", "is_scalar", "is_scalar definition",
+                            f"is_scalar(t) is `{txt[:100]}`: a python number or a plain 0-dim tensor (the scale-only handlers keep the operand's geometry, which is only right when the other operand does not broadcast): {ok}",
+                            "q * torch.tensor([[0.5]]) (one element, rank 2): the result keeps q's shape instead of the broadcast shape, and a per-tensor tensor gets a non-scalar scale"))
+        cm = mi.defs.get("cannot_mm")
+        if isinstance(cm, ast.FunctionDef):
+            t = positional_params(cm)[0]
+            ps = [p for p in paths_of(cm) if p.end[0] == "return"]
+            txt = U(ps[0].end[1]) if len(ps) == 1 else ""
+            ok = txt in (f"{t}.axis is not None and {t}.size() != {t}._data.size()", f"{t}.axis is not None and {t}._data.size() != {t}.size()")
+            recs.append(Rec("C05", "C05.R13", "ok" if ok else "bad", f"{mi.rel}:{cm.lineno}", "cannot_mm", "cannot_mm definition",
+                            f"cannot_mm(t) is `{txt[:90]}`: true exactly for grouped (reshaped) payloads: {ok}", "a grouped low-bit operand reaches the raw-code matmul"))
     return recs
 
 
@@ -415,6 +458,9 @@ def _check_ctor(repo, R, h: Handler, hp: HPath, f, line, tparams, ops):
         R("C05", "C05.R4", "ok" if good else "bad", h, line, f"join {sorted(ops)} guards",
           f"join of payloads {items}: operands in order={ok_items}, remaining args forwarded={rest_ok}, all QBytes & per-tensor={guards}, torch.equal(scales)={eqs}, equal qtypes={eqq}, len guard={lenfact}, scale from an operand={sc_ok}",
           "operands with different scales / qtypes / a per-axis operand / more operands than are joined")
+        R("C06", "C06.R8", "ok" if guards else "bad", h, line, f"join {sorted(ops)} keeps a possibly per-axis scale",
+          f"join of payloads keeps one operand's scale: it matches the joined payload only when every operand is per-tensor (0-dim scale): {guards}",
+          "two per-axis tensors with equal scales joined along their quantization axis (e.g. dim=1 for axis -1): 2N channels wrapped with an N-entry scale")
         if ops & NO_FLOAT8:
             g = float_guard_ok(hp, names)
             R("C05", "C05.R6", "ok" if g else "bad", h, line, f"raw payload of {names} without float8 guard", f"join on raw payloads {'is' if g else 'is NOT'} guarded against float8 storage", "float8 operands (no float8 cat kernel)")
@@ -453,6 +499,9 @@ def _check_ctor(repo, R, h: Handler, hp: HPath, f, line, tparams, ops):
                 R("C05", "C05.R6", "ok" if g else "bad", h, line, f"raw payload of ['{x}'] without float8 guard", f"`{U(inner)[:50]}` on the raw payload {'is' if g else 'is NOT'} guarded against float8 storage", "a float8 operand (no float8 kernel: NotImplementedError)")
         elif ops <= MOVE_OPS | PRESERVE_OPS:
             g = scalar_axis_fact(hp, x) or identity_guard(hp, x, ops)
+            R("C06", "C06.R8", "ok" if g else "bad", h, line, f"move {sorted(ops)} keeps a possibly per-axis scale",
+              f"geometry-changing {sorted(ops)} keeps the scale of `{x}`: it still broadcasts along the declared axis only if the scale is 0-dim (`{x}.axis is None` on path: {g})",
+              "a per-axis quantized operand: the scale shape no longer matches the payload along the declared axis")
             R("C05", "C05.R5", "ok" if g else "bad", h, line, f"move {sorted(ops)} keeps scale without per-tensor guard",
               f"data movement {sorted(ops)} keeps the scale of `{x}` unchanged; `{x}.axis is None` (or identity) established on path: {g}", "a per-axis quantized operand: the scale no longer lines up with the moved payload")
             R("C05", "C05.R4", "ok", h, line, "", f"payload of `{x}` only moved by {sorted(ops)}; scale is the operand's scale")
